@@ -330,7 +330,7 @@ func clause(m *Member, d OpDesc, o, depth int) (qframe.FilterClause, string) {
 		return qframe.Null(), "null"
 	}
 	col := func(i int) string { return m.Names[p(i)%len(m.Names)] }
-	shape := p(0) % 8
+	shape := p(0) % 11
 	if depth >= 2 && shape >= 3 {
 		shape = 0
 	}
@@ -356,6 +356,14 @@ func clause(m *Member, d OpDesc, o, depth int) (qframe.FilterClause, string) {
 		a, da := leaf(m, col(1), d, o+2)
 		b, db := leaf(m, col(3), d, o+4)
 		return qframe.And(a, qframe.Null(), b), "and(" + da + ",null," + db + ")"
+	case 8:
+		a, da := leaf(m, col(1), d, o+2)
+		return qframe.Or(qframe.Null(), a), "or(null," + da + ")"
+	case 9:
+		a, da := leaf(m, col(1), d, o+2)
+		return qframe.Or(a, qframe.Null()), "or(" + da + ",null)"
+	case 10:
+		return qframe.Not(qframe.Null()), "not(null)"
 	default:
 		a, da := leaf(m, col(1), d, o+2)
 		return a, da
@@ -896,6 +904,11 @@ func normKey(cell string) string {
 	return cell
 }
 
+// sharedStrJoin is one function value of the library's StrJoin, kept in a
+// package variable and handed to every Aggregate of every client, the way a
+// program would: whatever the returned function holds on to is shared.
+var sharedStrJoin = aggregation.StrJoin(",")
+
 var scribble = "\x00scribbled"
 
 func makeView(f qframe.QFrame, col, typ string) *View {
@@ -968,6 +981,16 @@ func makeView(f qframe.QFrame, col, typ string) *View {
 				sl[i] = &scribble
 			}
 			_ = append(sl, &scribble)
+			return out
+		}, Retained: func() []string {
+			ptrs := make([]*string, 0, v.Len())
+			for i := 0; i < v.Len(); i++ {
+				ptrs = append(ptrs, v.ItemAt(i))
+			}
+			var out []string
+			for _, p := range ptrs {
+				out = append(out, obs.StrText(p))
+			}
 			return out
 		}}
 	case "enum":
@@ -1064,7 +1087,7 @@ func aggsFor(names, typs, keys []string, d OpDesc) []qframe.Aggregation {
 				}
 				s := strings.Join(parts, "+")
 				return &s
-			}, aggregation.StrJoin(","), "count"}
+			}, sharedStrJoin, "count"}
 			aggs = append(aggs, qframe.Aggregation{Fn: fns[v], Column: name, As: as})
 		}
 	}
